@@ -1,0 +1,124 @@
+//go:build verif
+
+// Verification hooks for the struct <-> Arrow mapping (types_*.go) and for
+// registering methods whose parameter type only exists at run time.
+//
+// Purely additive: every function is a thin wrapper over the unexported
+// function the production paths call, or fills methodInfo through the same
+// helpers the generic Unary/Producer/Exchange registration functions use.
+// Nothing here is compiled without `-tags verif`.
+
+package vgirpc
+
+import (
+	"fmt"
+	"reflect"
+
+	"github.com/apache/arrow-go/v18/arrow"
+)
+
+// VerifSerializeStruct is serializeVgirpcStruct: a vgirpc-tagged struct to the
+// IPC stream bytes carried in a binary `result` column.
+func VerifSerializeStruct(value any) ([]byte, error) {
+	return serializeVgirpcStruct(value)
+}
+
+// VerifDeserializeParams is deserializeParams: row 0 of a parameter batch into
+// a value of the struct type target.
+func VerifDeserializeParams(batch arrow.RecordBatch, target reflect.Type) (reflect.Value, error) {
+	return deserializeParams(batch, target)
+}
+
+// VerifSerializeResult is serializeResult: a handler's return value into the
+// one-row `result` batch for the given result schema.
+func VerifSerializeResult(schema *arrow.Schema, value any) (arrow.RecordBatch, error) {
+	return serializeResult(schema, value)
+}
+
+// VerifStructSchema is structToSchema (the memoized derivation every dispatch
+// path consults).
+func VerifStructSchema(t reflect.Type) (*arrow.Schema, error) {
+	return structToSchema(t)
+}
+
+// VerifStructSchemaUncached runs the reflection walk without consulting or
+// filling the per-type memo, so a caller can compare it with the memoized one.
+func VerifStructSchemaUncached(t reflect.Type) (*arrow.Schema, error) {
+	if t.Kind() == reflect.Ptr {
+		t = t.Elem()
+	}
+	d := buildStructDesc(t)
+	if d.Err != nil {
+		return nil, d.Err
+	}
+	return d.Schema, nil
+}
+
+// VerifResultSchema is resultSchema: the `result` envelope schema of a return type.
+func VerifResultSchema(t reflect.Type) (*arrow.Schema, error) {
+	return resultSchema(t)
+}
+
+// VerifRegisterUnary registers a unary method for a parameter/result type
+// pair known only as reflect.Types (generics cannot be instantiated with a
+// reflect.StructOf type). handler must be a
+// func(context.Context, *CallContext, P) (R, error) value — or
+// func(context.Context, *CallContext, P) error when resultType is nil —
+// typically built with reflect.MakeFunc. The methodInfo is filled exactly as
+// Unary / UnaryVoid fill it.
+func VerifRegisterUnary(s *Server, name string, paramsType, resultType reflect.Type, handler reflect.Value) error {
+	zero := reflect.New(paramsType).Elem().Interface()
+	paramsSchema, err := paramsSchemaFor(zero, paramsType)
+	if err != nil {
+		return fmt.Errorf("vgirpc: registering %q: invalid params type %v: %w", name, paramsType, err)
+	}
+	resSchema := arrow.NewSchema(nil, nil)
+	if resultType != nil {
+		resSchema, err = resultSchema(resultType)
+		if err != nil {
+			return fmt.Errorf("vgirpc: registering %q: invalid result type %v: %w", name, resultType, err)
+		}
+	}
+	s.methods[name] = &methodInfo{
+		Name:          name,
+		Type:          MethodUnary,
+		ParamsType:    paramsType,
+		ResultType:    resultType,
+		ParamsSchema:  paramsSchema,
+		ResultSchema:  resSchema,
+		Handler:       handler,
+		ParamDefaults: extractDefaults(paramsType),
+	}
+	return nil
+}
+
+// VerifRegisterStream registers a producer (inputSchema == nil) or exchange
+// (inputSchema != nil) stream method for a run-time parameter type. handler
+// must be a func(context.Context, *CallContext, P) (*StreamResult, error)
+// value. The methodInfo is filled exactly as Producer / Exchange fill it.
+func VerifRegisterStream(s *Server, name string, paramsType reflect.Type, outputSchema, inputSchema *arrow.Schema, handler reflect.Value) error {
+	if outputSchema == nil {
+		return fmt.Errorf("vgirpc: registering %q: outputSchema must not be nil", name)
+	}
+	zero := reflect.New(paramsType).Elem().Interface()
+	paramsSchema, err := paramsSchemaFor(zero, paramsType)
+	if err != nil {
+		return fmt.Errorf("vgirpc: registering %q: invalid params type %v: %w", name, paramsType, err)
+	}
+	mt := MethodProducer
+	if inputSchema != nil {
+		mt = MethodExchange
+	}
+	s.methods[name] = &methodInfo{
+		Name:          name,
+		Type:          mt,
+		ParamsType:    paramsType,
+		ParamsSchema:  paramsSchema,
+		ResultSchema:  arrow.NewSchema(nil, nil),
+		Handler:       handler,
+		ParamDefaults: extractDefaults(paramsType),
+		OutputSchema:  outputSchema,
+		InputSchema:   inputSchema,
+	}
+	return nil
+}
